@@ -438,11 +438,9 @@ def _raw(v):
     d = getattr(v, "__dict__", {})
     if "_underlying" in d:
         return d["_underlying"], d.get("_dtype", type(v)._dtype if hasattr(type(v), "_dtype") else None)
-    # Row: a hollow view
+    # Row: a hollow view - its cells through the `_underlying` property every Vector-like answers to (no private layout assumed)
     try:
-        cols = object.__getattribute__(v, "_raw_cols")
-        idx = object.__getattribute__(v, "_index")
-        return tuple(c[idx] for c in cols), object.__getattribute__(v, "_dtype")
+        return tuple(v._underlying), object.__getattribute__(v, "_dtype")
     except Exception:
         return None, None
 
@@ -666,6 +664,24 @@ def _check(mon, qual, name, args, kwargs, obj, what, self_dt):
         if why is not None:
             _record(mon, qual, args, kwargs, obj, what, why)
     except Exception:
+        pass
+    finally:
+        mon.busy = False
+
+
+def check_held(obj, what):
+    """for observers that HOLD a vector (a row view) across somebody else's write: the monitor only looks at what calls return
+    or mutate, so an object that stops being truthful without being called is reported here"""
+    mon = _MON
+    if mon is None or not mon.enabled:
+        return
+    mon.busy = True
+    try:
+        mon.stats["checked"] += 1
+        why = untruth(obj)
+        if why is not None:
+            _record(mon, "held object", (), {}, obj, what, why)
+    except Exception:                                        # noqa: BLE001
         pass
     finally:
         mon.busy = False
